@@ -44,7 +44,7 @@ BitsVal(f(_), from, cnt, acc) ==
   IF cnt = 0 THEN acc ELSE BitsVal(f, from + 1, cnt - 1, 2 * acc + f(from))
 
 EntropyOfIdx(ws) ==
-  LET f(p) == WBit(ws, p) IN [k \in 1..EntBytes(Len(ws)) |-> BitsVal(f, 8 * (k - 1), 8, 0)]
+  LET f(p) == WBit(ws, p) IN Mat([k \in 1..EntBytes(Len(ws)) |-> BitsVal(f, 8 * (k - 1), 8, 0)])
 ChecksumOfIdx(ws) ==
   LET f(p) == WBit(ws, p) IN BitsVal(f, 8 * EntBytes(Len(ws)), CsBits(Len(ws)), 0)
 \* the leading CS bits of SHA-256(entropy)
@@ -57,7 +57,7 @@ IdxOfEntropy(ent) ==
   LET n   == CountOfEnt(Len(ent))
       all == ent \o <<Sha256(ent)[1]>>
       f(p) == BBit(all, p)
-  IN  [i \in 1..n |-> BitsVal(f, 11 * (i - 1), 11, 0)]
+  IN  Mat([i \in 1..n |-> BitsVal(f, 11 * (i - 1), 11, 0)])
 
 JoinWords(idx) ==       \* canonical phrase as a string
   LET RECURSIVE go(_)
@@ -71,14 +71,14 @@ PhraseOfEntropy(ent) == JoinWords(IdxOfEntropy(ent))
 ParsePhrase(cps) ==
   LET open   == HasOpenWs(cps)
       toks   == Tokens(cps, IF open THEN StdWs \cup OpenWs ELSE StdWs)
-      low    == [i \in 1..Len(toks) |-> LowerAscii(toks[i])]
+      low    == Mat([i \in 1..Len(toks) |-> Mat(LowerAscii(toks[i]))])
       exact  == \A i \in 1..Len(toks) : IsWord(toks[i])
       folded == \A i \in 1..Len(toks) : IsWord(low[i])
   IN
   IF ~(Len(toks) \in ValidCounts) THEN [c |-> "reject", why |-> "word_count"]
   ELSE IF ~folded THEN [c |-> "reject", why |-> "unknown_word"]
   ELSE
-  LET idx == [i \in 1..Len(toks) |-> IndexOf(low[i])] IN
+  LET idx == Mat([i \in 1..Len(toks) |-> IndexOf(low[i])]) IN
   IF ~AcceptsIdx(idx) THEN [c |-> "reject", why |-> "checksum"]
   ELSE [c |-> IF exact /\ ~open THEN "accept" ELSE "either",
         phrase |-> JoinWords(idx), n |-> Len(idx), idx |-> idx]
